@@ -116,11 +116,12 @@ Inductive LoopR : state -> res signal -> Prop :=
 | LR_normal st E' st' r : ExecS E BB st (ROk (E', SigNormal) st') -> LoopR st' r -> LoopR st r
 | LR_continue st E' st' r : ExecS E BB st (ROk (E', SigGoto L) st') -> LoopR st' r -> LoopR st r
 | LR_break st E' st' : ExecS E BB st (ROk (E', SigBreak) st') -> LoopR st (ROk SigNormal st')
+| LR_return st E' vs st' : ExecS E BB st (ROk (E', SigReturn vs) st') -> LoopR st (ROk (SigReturn vs) st')
 | LR_err st v st' : ExecS E BB st (RErr v st') -> LoopR st (RErr v st').
 
 Lemma LoopR_BlockP st r : LoopR st r -> BlockP st r.
 Proof.
-  induction 1 as [st E' st' r Hx Hl IH | st E' st' r Hx Hl IH | st E' st' Hx | st v st' Hx].
+  induction 1 as [st E' st' r Hx Hl IH | st E' st' r Hx Hl IH | st E' st' Hx | st E' vs st' Hx | st v st' Hx].
   - pose proof (exec_block_seen E BB st _ Hx HBB) as Hb. cbn beta iota in Hb.
     exists (ROk (E', SigNormal) st'). split; [exact Hb|].
     cbn [Kont snd]. destruct (Wh_of_BlockP _ _ IH) as [m Hm]. exists m. intros k Hk. apply Hm. lia.
@@ -128,6 +129,8 @@ Proof.
     destruct IH as (rb & Hrb & Hk). exists rb. split; [apply Hb; exact Hrb | exact Hk].
   - pose proof (exec_block_seen E BB st _ Hx HBB) as Hb. cbn beta iota in Hb.
     exists (ROk (E', SigBreak) st'). split; [exact Hb | exists O; intros; reflexivity].
+  - pose proof (exec_block_seen E BB st _ Hx HBB) as Hb. cbn beta iota in Hb.
+    exists (ROk (E', SigReturn vs) st'). split; [exact Hb | exists O; intros; reflexivity].
   - pose proof (exec_block_seen E BB st _ Hx HBB) as Hb. cbn beta iota in Hb.
     exists (RErr v st'). split; [exact Hb | exists O; intros; reflexivity].
 Qed.
